@@ -296,6 +296,13 @@ func (p *Packer) packWalkFn(root, src, dst string, tarW *tar.Writer, meta *Meta,
 				return filepath.Walk(resolved.absTarget, p.packWalkFn(root, resolved.absTarget, linkPos, tarW, meta, ignoreRules))
 			}
 
+			// Like any other entry, the target is only archived if it is a
+			// regular file. Opening a fifo or a device to copy its "content"
+			// would block or never end.
+			if !resolved.info.Mode().IsRegular() {
+				return nil
+			}
+
 			// Dereference this symlink by updating the header with the target file
 			// details and set writeBody to true so the body will be written.
 			header.Typeflag = tar.TypeReg
